@@ -251,6 +251,9 @@ var registry = []struct {
 }
 
 func typeByName(n string) reflect.Type {
+	if t, ok := genTypes[n]; ok {
+		return t
+	}
 	for _, e := range registry {
 		if e.Name == n {
 			return e.T
